@@ -7,7 +7,7 @@ import itertools
 LEVEL = "exploration"
 
 DEFS = ["none", "k=d", "export k=x"]          # definition-time
-CALLS = ["none", "options k=c", "export_options k=e", "options k=expr"]  # call-time
+CALLS = ["none", "options k=c", "export_options k=e", "options k=expr", "export_options k=nested-expr"]  # call-time
 
 
 def build(levels, tag):
@@ -35,6 +35,8 @@ def build(levels, tag):
             t = t.export_options(k=f"e{i}")
         elif c == "options k=expr":
             t = t.options(k=T.inc(100 + i))
+        elif c == "export_options k=nested-expr":
+            t = t.export_options(k={"a": [T.inc(200 + i)]})  # the expression sits inside a container, no top-level option is one
         return t()
 
     for i in range(1, n + 1):
@@ -70,9 +72,20 @@ def build(levels, tag):
             names.add("k")
         elif c == "options k=expr":
             opts["k"] = 101 + i
+        elif c == "export_options k=nested-expr":
+            opts["k"] = {"a": [201 + i]}
+            names.add("k")
         ref[f"c27.L{i}_{tag}"] = opts.get("k", "<unset>")
         exported_names, parent_opts = names, opts
     return call_level(1), ref
+
+
+def concrete(v):
+    """Option value as the executor sees it, with any unevaluated expression made visible (and comparable)."""
+    from redun.expression import Expression
+    from redun.utils import map_nested_value
+
+    return map_nested_value(lambda x: "<UNEVALUATED EXPRESSION>" if isinstance(x, Expression) else x, v)
 
 
 def work(arg):
@@ -92,7 +105,7 @@ def work(arg):
 
         def on_submit(job, script=False, seen=seen, imposed=imposed):
             o = job.get_options()
-            seen[job.task.fullname] = o.get("k", "<unset>")
+            seen[job.task.fullname] = concrete(o.get("k", "<unset>"))
             imposed[job.task.fullname] = (repr(o.get("cache_scope")), o.get("prov", True))
             return orig(job, script)
 
@@ -107,7 +120,7 @@ def work(arg):
             viol.append((f"run-fails:{mode}", case, f"{case}: {out!r}"))
             continue
         got = {k: v for k, v in seen.items() if k.startswith("c27.L")}
-        kinds.add(tuple(sorted(ref.values(), key=repr)))
+        kinds.add(tuple(sorted(map(repr, ref.values()))))
         if got != ref:
             lvl = next(k for k in sorted(ref) if got.get(k) != ref[k])
             i = int(lvl.split(".L")[1][0])
@@ -184,7 +197,7 @@ def run(ctx):
     return {"coverage": {
         "evaluations": sum(r["n"] for r in res) + n2, "distinct_nontrivial": len(kinds), "exhaustive": True,
         "rule": "every chain of 3 jobs where each level independently sets option k at definition time (plain or exported) and/or at call time "
-        "(options, export_options, or an expression-valued option inc(..)); the options each job is submitted with are read by the interposed "
+        "(options, export_options, an expression-valued option inc(..), or an exported container option with an expression nested inside); the options each job is submitted with are read by the interposed "
         "executor and compared with the documented precedence; plus run(cache=False) chains (imposed cache scope) and a prov=False ancestor "
         "(imposed prov / cache scope over any call-time setting); distinct = distinct option-value vectors",
         "samples": [{"levels": [list(l) for l in c[0]], "mode": c[1]} for c in combos[:2]],
